@@ -279,6 +279,39 @@ class _DropAssigns(ast.NodeTransformer):
         return node
 
 
+class _FStringToFormat(ast.NodeTransformer):
+    """f'{a} {b:.0f} ' -> '{} {:.0f} '.format(a, b): one notation for the
+    rules that read templates"""
+
+    def __init__(self):
+        self.changed = False
+
+    def visit_JoinedStr(self, node):
+        for v in node.values:           # not into the format specs
+            if isinstance(v, ast.FormattedValue):
+                v.value = self.visit(v.value)
+        text, args = '', []
+        for v in node.values:
+            if isinstance(v, ast.Constant) and isinstance(v.value, str):
+                text += v.value.replace('{', '{{').replace('}', '}}')
+            elif isinstance(v, ast.FormattedValue):
+                spec = ''
+                if v.format_spec is not None:
+                    if not all(isinstance(x, ast.Constant)
+                               for x in v.format_spec.values):
+                        return node         # nested fields: leave it
+                    spec = ''.join(x.value for x in v.format_spec.values)
+                conv = {-1: '', 115: '!s', 114: '!r', 97: '!a'}.get(v.conversion, '')
+                text += '{' + conv + ((':' + spec) if spec else '') + '}'
+                args.append(v.value)
+            else:
+                return node
+        self.changed = True
+        return ast.copy_location(ast.Call(
+            ast.Attribute(ast.Constant(text), 'format', ast.Load()), args, []),
+            node)
+
+
 def normalised(A, f, keep=()):
     keep = tuple(sorted(keep))
     memo = A._memo.setdefault(('normalised', keep), {})
@@ -286,10 +319,13 @@ def normalised(A, f, keep=()):
         return memo[f]
     new = copy.deepcopy(f.node)
     _tag_calls(f.node, new)
+    # 0. one notation for formatted strings
+    fs = _FStringToFormat()
+    new = fs.visit(new)
     # 1. helper expansion
     inl = _Inliner(A, f, None, 0, {f}, keep)
     new.body = _flatten([inl.visit(s) for s in new.body])
-    changed = inl.changed
+    changed = inl.changed or fs.changed
     # 2. alias locals
     aliases = _alias_locals(new, f.cls)
     if aliases:
